@@ -160,6 +160,8 @@ func observe(h *history, pid *actor.PID) sched.Observer {
 			h.add("pop", 0, time.Now(), 0, 0, point)
 		case "pm.register":
 			h.add("register", 0, time.Now(), 0, 0, "")
+		case "pm.unregister":
+			h.add("unregister", 0, time.Now(), 0, 0, "")
 		case "turn.begin":
 			if a == 0 { // a dispatcher turn starts: runTurn samples its clock right after this hook
 				h.add("turnbegin", 0, time.Now(), 0, 0, "")
@@ -858,6 +860,22 @@ func main() {
 		mode, _ := strconv.Atoi(os.Args[7])
 		sys, parent := mk()
 		stress(sys, parent, n, tms, slack, seed, ev, mode, st)
+		st.Events = ev.Count()
+		ev.Close()
+		stopSystem(sys)
+	case "witness":
+		if len(os.Args) != 4 {
+			fatal("usage: passivation witness <events> <slack_ms>")
+		}
+		ev, err := vtrace.Create(os.Args[2])
+		if err != nil {
+			fatal(err)
+		}
+		slack, _ := strconv.Atoi(os.Args[3])
+		sys, parent := mk()
+		for i := 0; i < 3; i++ {
+			witnessRestartStaleTrigger(parent, slack, ev, st, i)
+		}
 		st.Events = ev.Count()
 		ev.Close()
 		stopSystem(sys)
